@@ -51,4 +51,29 @@ def openVersions (F : Facts) (skipUnreadable : Bool) : List (Nat Ã— List Ans) â†
       | .ok l => .ok (v :: l)
       | .error => .error
 
+/-! ### vacuum's keep pass under faults (`getHistoricRootsAndNodes`)
+
+Before it deletes anything, vacuum walks every version that stays listed and keeps the nodes it
+reaches.  A version that answers "no such object" was half-deleted by an interrupted vacuum and
+has nothing left to keep (F69); ANY other failure must stop the vacuum, because a version that
+merely could not be read still needs its nodes.  `vacuumSkipsUnreadableListed` is the source text
+of exactly that. -/
+
+inductive Keep where
+  | kept (vs : List Nat)   -- the versions whose nodes are protected; the deletions go ahead
+  | error                  -- the vacuum fails and deletes nothing
+deriving DecidableEq, Repr
+
+/-- the keep loop over the listed versions and the answer each walk got -/
+def keepPass (F : Facts) : List (Nat Ã— Ans) â†’ Keep
+  | [] => .kept []
+  | (v, .found) :: rest =>
+    match keepPass F rest with
+    | .kept l => .kept (v :: l)
+    | .error => .error
+  | (_, .noSuchKey) :: rest => keepPass F rest
+  | (_, .error) :: rest =>
+    if F.vacuumSkipsUnreadableListed then .error   -- only NoSuchKey is skipped
+    else keepPass F rest                           -- "log and continue" on any error
+
 end S3db.Fault
